@@ -211,6 +211,8 @@ def eval_sock(case, rep):
     for x, y in so:
         if isinstance(x, int) and 0 <= x < len(reqs) and y != expected(x):
             rule = 'wrong-request' if y[0] in ('ok', 'err') and y[1] != x else 'response-corrupt'
+            if y[0] == 'raised' and 'Timeout' in y[1]:
+                rule = 'no-response'
             add(rule, f'stream input {x} paired with {y}, expected {expected(x)}')
     # 4. a response always finds its request registered (F17 window), nothing is left over
     registered = set()
@@ -234,7 +236,7 @@ def eval_sock(case, rep):
     # compact events for evidence/distinctness: drop digests and ids
     res = dict(monitors=mon, events=_shape(ev), raw_events=ev, results=results, stream_out=so,
                wall=rep.get('wall'), timing=rep.get('timing'), errors=rep.get('errors', []),
-               reordered=_reordered(ev), nrecv=sum(1 for e in _shape(ev) if e[0] == 'recv'),
+               reordered=_reordered(ev), drain_windows=_drain_windows(ev), nrecv=sum(1 for e in _shape(ev) if e[0] == 'recv'),
                server_stopped=rep.get('server_stopped'), digests=dig)
     return res
 
@@ -253,6 +255,20 @@ def _shape(ev):
         elif e[0] == 'syield':
             out.append((e[0], e[1]))
     return out
+
+
+def _drain_windows(ev):
+    """sends after which other events were logged before the id was registered (the drain yielded)"""
+    n = 0
+    open_send = {}
+    for i, e in enumerate(ev):
+        if e[0] == 'send':
+            open_send[e[2]] = i
+        elif e[0] == 'register':
+            j = open_send.pop(e[1], None)
+            if j is not None and i - j > 1:
+                n += 1
+    return n
 
 
 def _reordered(ev):
